@@ -94,8 +94,11 @@ theorem frame_resolve (c : Cfg) (s : St) (e : TEvent) (d : EvData) :
             · next s' ok h =>
               split <;> exact frame_evalConds _ _ _ _ _ h
 
+theorem frame_setCtx (s : St) (d : EvData) : Frame s (setCtx s d) :=
+  ⟨rfl, rfl, rfl, rfl, rfl, rfl, rfl, rfl⟩
+
 theorem frame_post (c : Cfg) (s : St) (e : TEvent) (d : EvData) : Frame s (post c s e d).1 := by
-  have h := frame_resolve c s e d
+  have h := (frame_setCtx s d).trans (frame_resolve c (setCtx s d) e d)
   unfold post
   split
   · next s1 q heq =>
@@ -107,12 +110,16 @@ theorem frame_post (c : Cfg) (s : St) (e : TEvent) (d : EvData) : Frame s (post 
   · next s1 heq => rw [heq] at h; exact h.trans (frame_fail _ _)
   · next s1 k heq => rw [heq] at h; exact h.trans (frame_fail _ _)
 
+theorem frame_eventRec (c : Cfg) (s : St) (e : TEvent) (d : EvData) :
+    Frame s (eventRec c s e d).1 :=
+  (frame_post c s e d).trans ⟨rfl, rfl, rfl, rfl, rfl, rfl, rfl, rfl⟩
+
 theorem frame_runEnter (c : Cfg) (s : St) (q : String) : Frame s (runEnter c s q) := by
   unfold runEnter
-  have h := frame_emit s (.enter q) rfl
+  have h := frame_emit s (.enter q s.ctx) rfl
   split
   · exact h
-  · exact h.trans (frame_post _ _ _ _)
+  · exact h.trans (frame_eventRec _ _ _ _)
 
 theorem frame_setOut (s : St) (v : Val) : Frame s (setOut s v) := by
   unfold setOut
@@ -127,17 +134,11 @@ theorem frame_sendOnEnter (s : St) : Frame s (sendOnEnter s) := by
   · exact frame_emit _ _ rfl
   · exact Frame.refl _
 
-theorem frame_checkInit (s : St) : Frame s (checkInit s) := by
-  unfold checkInit
-  split
-  · exact frame_fail _ _
-  · exact Frame.refl _
-
 theorem frame_finish (c : Cfg) (s : St) : Frame s (finish c s) := by
   unfold finish
   split
   · exact frame_fail _ _
-  · exact ((frame_setOut _ _).trans (frame_sendOnEnter _)).trans (frame_checkInit _)
+  · exact (frame_setOut _ _).trans (frame_sendOnEnter _)
 
 /-! ### timers -/
 
@@ -165,22 +166,12 @@ structure EL (c : Cfg) (s s' : St) : Prop where
   timer : Idle s' ∨ ∃ h, live s' = [h] ∧ s'.active = some h.id ∧ h.epoch = s'.epoch ∧
     s.epoch < s'.epoch ∧ s'.now < h.when ∧ s'.stopped = false ∧
     ∃ q dflt, s'.state = some q ∧ c.tbl.timedOf q = some (h.ev, dflt)
-  init : s'.failed = none → s'.out.isUndef = false
   entered : s'.failed = none → s.epoch < s'.epoch
 
 theorem EL.of_frame_idle {c : Cfg} {s s' : St} (f : Frame s s') (hi : Idle s)
     (hinit : s'.failed ≠ none) : EL c s s' :=
   ⟨f.fires, f.now, f.stopped, Nat.le_of_eq f.epoch.symm, .inl (idle_of_frame f hi),
-   fun h => absurd h hinit, fun h => absurd h hinit⟩
-
-theorem finish_init (c : Cfg) (s : St) : (finish c s).failed = none → (finish c s).out.isUndef = false := by
-  unfold finish
-  split
-  · intro h; exact absurd h (fail_failed _ _)
-  · unfold checkInit
-    split
-    · intro h; exact absurd h (fail_failed _ _)
-    · next h => intro _; simpa using h
+   fun h => absurd h hinit⟩
 
 theorem live_setTimer (s : St) (d : Nat) (ev : TEvent) (hs : s.stopped = false) (hi : live s = []) :
     live (setTimer s d ev) = [{ id := s.nextId, when := s.now + d, ev := ev, epoch := s.epoch }] := by
@@ -231,7 +222,7 @@ theorem startTimer_spec (c : Cfg) (s : St) (q : String) (tev : TEvent) (item : D
   · exact .inl (Frame.refl _)
   · next d _ =>
     split
-    · exact .inl (frame_post _ _ _ _)
+    · exact .inl (frame_eventRec _ _ _ _)
     · next hd =>
       cases hs : s.stopped
       · exact .inr ⟨rfl, d.toNat, by omega, rfl⟩
@@ -240,8 +231,8 @@ theorem startTimer_spec (c : Cfg) (s : St) (q : String) (tev : TEvent) (item : D
 theorem enterState_ES (c : Cfg) (s : St) (d : EvData) (q : String) (hi : Idle s) :
     ES c s (enterState c s d q) := by
   unfold enterState
-  have f1 := frame_runEnter c { s with state := some q, epoch := s.epoch + 1 } q
-  generalize runEnter c { s with state := some q, epoch := s.epoch + 1 } q = s1 at f1
+  have f1 := frame_runEnter c (s.enter q) q
+  generalize runEnter c (s.enter q) q = s1 at f1
   have hi1 : Idle s1 := idle_of_frame f1 hi
   have base : ES c s s1 := ⟨f1.fires, f1.now, f1.stopped, f1.epoch, .inl hi1⟩
   dsimp only
@@ -264,65 +255,68 @@ theorem enterState_ES (c : Cfg) (s : St) (d : EvData) (q : String) (hi : Idle s)
         · exact hf.2.2.1.symm
         · rw [hf.1]; show s1.now < s1.now + n; omega
         · rw [hf.2.1]; exact hs
-        · rw [hf.2.2.2.1, f1.state]
+        · rw [hf.2.2.2.1, f1.state]; rfl
         · rw [hf.2.2.2.2.1]; exact hn.2
 
-theorem frame_exitPrev (s : St) (prev : Option String) : Frame s (exitPrev s prev) := by
-  unfold exitPrev; split
+theorem frame_exitCur (s : St) : Frame s (exitCur s) := by
+  unfold exitCur; split
   · exact frame_emit _ _ rfl
   · exact Frame.refl _
 
-theorem enterLoop_EL (c : Cfg) : ∀ (fuel : Nat) (s : St) (prev : Option String) (d : EvData)
-    (q : String), Idle s → EL c s (enterLoop c fuel s prev d q) := by
+theorem frame_popNext (s : St) (d : EvData) (q : String) : Frame s (popNext s d q).1 := by
+  unfold popNext; split
+  · exact Frame.trans (b := setCtx (s.setNextEv none) _) ⟨rfl, rfl, rfl, rfl, rfl, rfl, rfl, rfl⟩
+      (frame_exitCur _)
+  · exact Frame.refl _
+
+theorem enterLoop_EL (c : Cfg) : ∀ (fuel : Nat) (s : St) (d : EvData)
+    (q : String), Idle s → EL c s (enterLoop c fuel s d q) := by
   intro fuel
   induction fuel with
   | zero =>
-    intro s prev d q hi
+    intro s d q hi
     unfold enterLoop
     exact EL.of_frame_idle (frame_fail _ _) hi (fail_failed _ _)
   | succ n ih =>
-    intro s prev d q hi
+    intro s d q hi
     unfold enterLoop
-    have f0 := frame_exitPrev s prev
-    have es := enterState_ES c (exitPrev s prev) d q (idle_of_frame f0 hi)
-    generalize enterState c (exitPrev s prev) d q = s2 at es
+    dsimp only
+    have f0 := frame_popNext s d q
+    generalize popNext s d q = r at f0 ⊢
+    have es := enterState_ES c r.1 r.2.1 r.2.2 (idle_of_frame f0 hi)
+    generalize enterState c r.1 r.2.1 r.2.2 = s2 at es ⊢
     have hfires : fires s2.log = fires s.log := es.fires.trans f0.fires
     have hnow : s2.now = s.now := es.now.trans f0.now
     have hstop : s2.stopped = s.stopped := es.stopped.trans f0.stopped
     have hep : s2.epoch = s.epoch + 1 := by rw [es.epoch, f0.epoch]
-    dsimp only
     split
     · next hf =>
-      refine ⟨hfires, hnow, hstop, by omega, ?_, ?_, ?_⟩
+      refine ⟨hfires, hnow, hstop, by omega, ?_, ?_⟩
       · rcases es.timer with h | ⟨⟨h, hl, ha, he, hw, hs, hq⟩, _⟩
         · exact .inl h
         · exact .inr ⟨h, hl, ha, he, by omega, hw, hs, hq⟩
       · intro h; rw [h] at hf; simp at hf
-      · intro h; rw [h] at hf; simp at hf
     · split
-      · next e' d' q' hnext =>
-        have hi2 : Idle { s2 with next := none } := by
+      · next hnext =>
+        have hi2 : Idle s2 := by
           rcases es.timer with h | ⟨_, hnn⟩
           · exact h
-          · rw [hnn] at hnext; cases hnext
-        have r := ih { s2 with next := none } (some q) d' q' hi2
-        refine ⟨r.fires.trans hfires, r.now.trans hnow, r.stopped.trans hstop, ?_, ?_, r.init, ?_⟩
-        rotate_left 2
-        · intro hfn; have := r.entered hfn; simp only [] at this; omega
-        · have := r.epoch; simp only [] at this; omega
-        · rcases r.timer with h | ⟨h, hl, ha, he, hlt, hw, hs, hq⟩
+          · rw [hnn] at hnext; simp at hnext
+        have r' := ih s2 r.2.1 r.2.2 hi2
+        refine ⟨r'.fires.trans hfires, r'.now.trans hnow, r'.stopped.trans hstop, ?_, ?_, ?_⟩
+        · have := r'.epoch; omega
+        · rcases r'.timer with h | ⟨h, hl, ha, he, hlt, hw, hs, hq⟩
           · exact .inl h
-          · refine .inr ⟨h, hl, ha, he, ?_, hw, hs, hq⟩
-            simp only [] at hlt; omega
+          · exact .inr ⟨h, hl, ha, he, by omega, hw, hs, hq⟩
+        · intro hfn; have := r'.entered hfn; omega
       · have ff := frame_finish c s2
-        refine ⟨ff.fires.trans hfires, ff.now.trans hnow, ff.stopped.trans hstop, ?_, ?_, finish_init c s2, ?_⟩
-        rotate_left 2
-        · intro _; rw [ff.epoch]; omega
+        refine ⟨ff.fires.trans hfires, ff.now.trans hnow, ff.stopped.trans hstop, ?_, ?_, ?_⟩
         · rw [ff.epoch]; omega
         · rcases es.timer with h | ⟨ha, _⟩
           · exact .inl (idle_of_frame ff h)
           · obtain ⟨h, hl, hact, he, hw, hs, hq⟩ := armed_of_frame ff ha
             exact .inr ⟨h, hl, hact, he, by rw [ff.epoch]; omega, hw, hs, hq⟩
+        · intro _; rw [ff.epoch]; omega
 
 /-! ### the invariant -/
 
@@ -440,9 +434,9 @@ theorem leave_spec {c : Cfg} {s : St} (i : Inv c s) (hf : s.failed = none) :
   · next hu => exact ⟨i.undef hu hf, rfl, rfl, rfl, rfl⟩
   · split
     · next cur hc =>
-      have f : Frame s ((s.emit (.exit cur)).emit (.onExit cur)) :=
+      have f : Frame s ((s.emit (.exit cur s.ctx)).emit (.onExit cur)) :=
         (frame_emit _ _ rfl).trans (frame_emit _ _ rfl)
-      have i2 : Inv c ((s.emit (.exit cur)).emit (.onExit cur)) := inv_of_frame f rfl (fun h => h) i
+      have i2 : Inv c ((s.emit (.exit cur s.ctx)).emit (.onExit cur)) := inv_of_frame f rfl (fun h => h) i
       have sp := stopTimer_spec i2.timer
       exact ⟨sp.1, sp.2.1.trans f.fires, sp.2.2.1.trans f.now, sp.2.2.2.1.trans f.epoch,
         sp.2.2.2.2.1.trans f.stopped⟩
@@ -456,14 +450,38 @@ theorem pending_of_armed {c : Cfg} {s : St} (h : Armed c s) : Pending c s := by
   obtain ⟨h, hl, ha, he, hw, hs, hq⟩ := h
   exact ⟨h, hl, ha, he, fun _ => Nat.le_of_lt hw, hs, hq⟩
 
+/-- the invariant without its clause about an undefined output -/
+structure InvW (c : Cfg) (s : St) : Prop where
+  timer : Idle s ∨ Pending c s
+  logOk : ∀ x ∈ fires s.log, x.2.1.epoch = x.2.2 ∧ x.1 = x.2.1.when ∧ x.2.2 ≤ s.epoch
+  below : live s ≠ [] → ∀ x ∈ fires s.log, x.2.2 < s.epoch
+  nodup : ((fires s.log).map (·.2.2)).Nodup
+
+theorem Inv.toW {c : Cfg} {s : St} (i : Inv c s) : InvW c s := ⟨i.timer, i.logOk, i.below, i.nodup⟩
+
+theorem InvW.toInv {c : Cfg} {s : St} (w : InvW c s)
+    (hu : s.out.isUndef = true → s.failed = none → Idle s) : Inv c s :=
+  ⟨w.timer, hu, w.logOk, w.below, w.nodup⟩
+
+theorem invW_fail {c : Cfg} {s : St} (w : InvW c s) (k : ErrKind) : InvW c (s.fail k) := by
+  have f := frame_fail s k
+  have hl : live (s.fail k) = live s := by unfold live; rw [f.timers]
+  refine ⟨?_, ?_, ?_, ?_⟩
+  · rcases w.timer with h | ⟨h, h1, h2, h3, _, h5, h6⟩
+    · exact .inl (idle_of_frame f h)
+    · exact .inr ⟨h, by rw [hl]; exact h1, by rw [f.active]; exact h2, by rw [f.epoch]; exact h3,
+        fun hn => absurd hn (fail_failed _ _), by rw [f.stopped]; exact h5, by rw [f.state]; exact h6⟩
+  · rw [f.fires, f.epoch]; exact w.logOk
+  · rw [hl, f.fires, f.epoch]; exact w.below
+  · rw [f.fires]; exact w.nodup
+
 /-- the state after an executed transition -/
-theorem inv_of_EL {c : Cfg} {s0 s s' : St} (i : Inv c s0) (hfires : fires s.log = fires s0.log)
-    (hep : s.epoch = s0.epoch) (el : EL c s s') : Inv c s' := by
-  refine ⟨?_, ?_, ?_, ?_, ?_⟩
+theorem invW_of_EL {c : Cfg} {s0 s s' : St} (i : Inv c s0) (hfires : fires s.log = fires s0.log)
+    (hep : s.epoch = s0.epoch) (el : EL c s s') : InvW c s' := by
+  refine ⟨?_, ?_, ?_, ?_⟩
   · rcases el.timer with h | ⟨h, hl, ha, he, _, hw, hs, hq⟩
     · exact .inl h
     · exact .inr ⟨h, hl, ha, he, fun _ => Nat.le_of_lt hw, hs, hq⟩
-  · intro h1 h2; rw [el.init h2] at h1; cases h1
   · rw [el.fires, hfires]
     intro x hx
     have := i.logOk x hx
@@ -478,26 +496,91 @@ theorem inv_of_EL {c : Cfg} {s0 s s' : St} (i : Inv c s0) (hfires : fires s.log 
     · omega
   · rw [el.fires, hfires]; exact i.nodup
 
+/-- what `_ctx_event` (from outside) does -/
+theorem ctxEvent_spec {c : Cfg} {s : St} (i : Inv c s) (hf : s.failed = none) (e : TEvent) (d : EvData) :
+    InvW c (ctxEvent c s e d).1 ∧
+    fires (ctxEvent c s e d).1.log = fires s.log ∧ (ctxEvent c s e d).1.now = s.now ∧
+    (ctxEvent c s e d).1.stopped = s.stopped ∧ s.epoch ≤ (ctxEvent c s e d).1.epoch ∧
+    ((ctxEvent c s e d).2 = .ret true → s.epoch < (ctxEvent c s e d).1.epoch) ∧
+    ((ctxEvent c s e d).2 = .ret false → Frame s (ctxEvent c s e d).1) ∧
+    ((ctxEvent c s e d).2 = .ret true ∨ (ctxEvent c s e d).1.failed ≠ none ∨
+      ((ctxEvent c s e d).1.out = s.out ∧ (ctxEvent c s e d).1.failed = s.failed ∧
+        Frame s (ctxEvent c s e d).1)) := by
+  unfold ctxEvent
+  have fr := (frame_setCtx s d).trans (frame_resolve c (setCtx s d) e d)
+  have kp := resolve_keeps c (setCtx s d) e d
+  have ko : (resolve c (setCtx s d) e d).1.out = s.out := kp.1
+  have kf : (resolve c (setCtx s d) e d).1.failed = s.failed := kp.2
+  have i1 : Inv c (resolve c (setCtx s d) e d).1 :=
+    inv_of_frame fr ko (fun h => by rw [kf] at h; exact h) i
+  have hf1 : (resolve c (setCtx s d) e d).1.failed = none := by rw [kf]; exact hf
+  split
+  · next s1 heq =>
+    rw [heq] at fr i1 ko kf
+    exact ⟨i1.toW, fr.fires, fr.now, fr.stopped, Nat.le_of_eq fr.epoch.symm, by simp, by simp,
+      .inr (.inr ⟨ko, kf, fr⟩)⟩
+  · next s1 k heq =>
+    rw [heq] at fr i1
+    have f2 := fr.trans (frame_fail s1 k)
+    exact ⟨invW_fail i1.toW k, f2.fires, f2.now, f2.stopped, Nat.le_of_eq f2.epoch.symm, by simp, by simp,
+      .inr (.inl (fail_failed _ _))⟩
+  · next s1 heq =>
+    rw [heq] at fr i1 ko kf
+    exact ⟨i1.toW, fr.fires, fr.now, fr.stopped, Nat.le_of_eq fr.epoch.symm, by simp, fun _ => fr,
+      .inr (.inr ⟨ko, kf, fr⟩)⟩
+  · next s1 q heq =>
+    rw [heq] at i1 hf1 fr
+    have lv := leave_spec i1 hf1
+    have el := enterLoop_EL c c.tbl.chainLimit (leave s1) d q lv.1
+    have w2 := invW_of_EL i1 lv.2.1 lv.2.2.2.1 el
+    dsimp only
+    have h1 : fires (enterLoop c c.tbl.chainLimit (leave s1) d q).log = fires s.log :=
+      el.fires.trans (lv.2.1.trans fr.fires)
+    have h2 : (enterLoop c c.tbl.chainLimit (leave s1) d q).now = s.now :=
+      el.now.trans (lv.2.2.1.trans fr.now)
+    have h3 : (enterLoop c c.tbl.chainLimit (leave s1) d q).stopped = s.stopped :=
+      el.stopped.trans (lv.2.2.2.2.trans fr.stopped)
+    have h4 : s.epoch ≤ (enterLoop c c.tbl.chainLimit (leave s1) d q).epoch := by
+      have := el.epoch; rw [lv.2.2.2.1, fr.epoch] at this; exact this
+    split
+    · next k hk => exact ⟨w2, h1, h2, h3, h4, by simp, by simp, .inr (.inl (by rw [hk]; simp))⟩
+    · next hnf =>
+      refine ⟨w2, h1, h2, h3, h4, fun _ => ?_, by simp, .inl rfl⟩
+      have := el.entered hnf; rw [lv.2.2.2.1, fr.epoch] at this; exact this
+
+theorem deliver_eq (c : Cfg) (s : St) (e : TEvent) (d : EvData) :
+    (deliver c s e d = ctxEvent c s e d ∧
+      ((ctxEvent c s e d).2 = .ret true → (ctxEvent c s e d).1.out.isUndef = false)) ∨
+    ((ctxEvent c s e d).2 = .ret true ∧ (ctxEvent c s e d).1.out.isUndef = true ∧
+      deliver c s e d = ((ctxEvent c s e d).1.fail .circuitError, .err .circuitError)) := by
+  unfold deliver
+  generalize ctxEvent c s e d = r
+  obtain ⟨s2, res⟩ := r
+  cases res with
+  | ret b =>
+    cases b with
+    | true =>
+      by_cases hu : s2.out.isUndef = true
+      · exact .inr ⟨rfl, hu, by simp [hu]⟩
+      · left; simp only [hu]; exact ⟨by simp, fun _ => by simp⟩
+    | false => exact .inl ⟨rfl, by simp⟩
+  | unknown => exact .inl ⟨rfl, by simp⟩
+  | err k => exact .inl ⟨rfl, by simp⟩
+  | aborted => exact .inl ⟨rfl, by simp⟩
+
 theorem inv_deliver {c : Cfg} {s : St} (i : Inv c s) (hf : s.failed = none) (e : TEvent) (d : EvData) :
     Inv c (deliver c s e d).1 := by
-  unfold deliver
-  have fr := frame_resolve c s e d
-  have kp := resolve_keeps c s e d
-  have i1 : Inv c (resolve c s e d).1 := inv_of_frame fr kp.1 (fun h => by rw [kp.2] at h; exact h) i
-  have hf1 : (resolve c s e d).1.failed = none := by rw [kp.2]; exact hf
-  split
-  · next s1 heq => rw [heq] at i1; exact i1
-  · next s1 k heq =>
-    rw [heq] at i1
-    exact inv_of_frame (frame_fail _ _) (fail_out _ _) (fun h => absurd h (fail_failed _ _)) i1
-  · next s1 heq => rw [heq] at i1; exact i1
-  · next s1 q heq =>
-    rw [heq] at i1 hf1
-    have lv := leave_spec i1 hf1
-    have el := enterLoop_EL c c.tbl.chainLimit (leave s1) none d q lv.1
-    have i2 := inv_of_EL i1 lv.2.1 lv.2.2.2.1 el
-    dsimp only
-    split <;> exact i2
+  have sp := ctxEvent_spec i hf e d
+  rcases deliver_eq c s e d with ⟨heq, hdef⟩ | ⟨_, _, heq⟩
+  · rw [heq]
+    refine sp.1.toInv ?_
+    intro hu hfn
+    rcases sp.2.2.2.2.2.2.2 with h | h | ⟨ho, hfl, fr⟩
+    · rw [hdef h] at hu; cases hu
+    · exact absurd hfn h
+    · exact idle_of_frame fr (i.undef (ho ▸ hu) (hfl ▸ hfn))
+  · rw [heq]
+    exact (invW_fail sp.1 _).toInv (fun _ h => absurd h (fail_failed _ _))
 
 theorem live_popTimer (s : St) (h : Handle) (hl : live s = [h]) : live (popTimer s h) = [] := by
   unfold live popTimer at *
@@ -688,40 +771,13 @@ theorem deliver_spec {c : Cfg} {s : St} (i : Inv c s) (hf : s.failed = none) (e 
     (deliver c s e d).1.stopped = s.stopped ∧ s.epoch ≤ (deliver c s e d).1.epoch ∧
     ((deliver c s e d).2 = .ret true → s.epoch < (deliver c s e d).1.epoch) ∧
     ((deliver c s e d).2 = .ret false → Frame s (deliver c s e d).1) := by
-  unfold deliver
-  have fr := frame_resolve c s e d
-  have kp := resolve_keeps c s e d
-  have i1 : Inv c (resolve c s e d).1 := inv_of_frame fr kp.1 (fun h => by rw [kp.2] at h; exact h) i
-  have hf1 : (resolve c s e d).1.failed = none := by rw [kp.2]; exact hf
-  split
-  · next s1 heq =>
-    rw [heq] at fr
-    exact ⟨fr.fires, fr.now, fr.stopped, Nat.le_of_eq fr.epoch.symm, by simp, by simp⟩
-  · next s1 k heq =>
-    rw [heq] at fr
-    have f2 := fr.trans (frame_fail s1 k)
-    exact ⟨f2.fires, f2.now, f2.stopped, Nat.le_of_eq f2.epoch.symm, by simp, by simp⟩
-  · next s1 heq =>
-    rw [heq] at fr
-    exact ⟨fr.fires, fr.now, fr.stopped, Nat.le_of_eq fr.epoch.symm, by simp, fun _ => fr⟩
-  · next s1 q heq =>
-    rw [heq] at i1 hf1 fr
-    have lv := leave_spec i1 hf1
-    have el := enterLoop_EL c c.tbl.chainLimit (leave s1) none d q lv.1
-    dsimp only
-    have h1 : fires (enterLoop c c.tbl.chainLimit (leave s1) none d q).log = fires s.log :=
-      el.fires.trans (lv.2.1.trans fr.fires)
-    have h2 : (enterLoop c c.tbl.chainLimit (leave s1) none d q).now = s.now :=
-      el.now.trans (lv.2.2.1.trans fr.now)
-    have h3 : (enterLoop c c.tbl.chainLimit (leave s1) none d q).stopped = s.stopped :=
-      el.stopped.trans (lv.2.2.2.2.trans fr.stopped)
-    have h4 : s.epoch ≤ (enterLoop c c.tbl.chainLimit (leave s1) none d q).epoch := by
-      have := el.epoch; rw [lv.2.2.2.1, fr.epoch] at this; exact this
-    split
-    · exact ⟨h1, h2, h3, h4, by simp, by simp⟩
-    · next hnf =>
-      refine ⟨h1, h2, h3, h4, fun _ => ?_, by simp⟩
-      have := el.entered hnf; rw [lv.2.2.2.1, fr.epoch] at this; exact this
+  have sp := ctxEvent_spec i hf e d
+  rcases deliver_eq c s e d with ⟨heq, _⟩ | ⟨_, _, heq⟩
+  · rw [heq]; exact ⟨sp.2.1, sp.2.2.1, sp.2.2.2.1, sp.2.2.2.2.1, sp.2.2.2.2.2.1, sp.2.2.2.2.2.2.1⟩
+  · rw [heq]
+    have f := frame_fail (ctxEvent c s e d).1 .circuitError
+    exact ⟨f.fires.trans sp.2.1, f.now.trans sp.2.2.1, f.stopped.trans sp.2.2.2.1,
+      by rw [f.epoch]; exact sp.2.2.2.2.1, by simp, by simp⟩
 
 theorem idle_of_stopped {c : Cfg} {s : St} (i : Inv c s) (hs : s.stopped = true) : Idle s := by
   rcases i.timer with h | ⟨_, _, _, _, _, hst, _⟩
@@ -907,5 +963,208 @@ theorem inv_run (c : Cfg) : ∀ (ops : List Op) (s : St), Inv c s → Inv c (run
   induction ops with
   | nil => intro s i; exact i
   | cons op ops ih => intro s i; exact ih _ (inv_step i op)
+
+/-! ### what `_ctx_event` may assume about the block (used by the tie to the translated source) -/
+
+/-- between events of a running simulation: no chained event is pending, and an initialised
+    block has a state -/
+def Quiet (s : St) : Prop :=
+  s.failed = none → (s.next = none ∧ (s.out.isUndef = false → s.state ≠ none))
+
+theorem evalCond_fields (s : St) (d : EvData) (cd : Cond) (s' : St) (b : Bool)
+    (h : evalCond s d cd = some (s', b)) : s'.next = s.next ∧ s'.state = s.state := by
+  cases cd <;> simp only [evalCond] at h
+  · cases h; exact ⟨rfl, rfl⟩
+  · cases h; exact ⟨rfl, rfl⟩
+  · cases h; exact ⟨rfl, rfl⟩
+  · split at h
+    · cases h; exact ⟨rfl, rfl⟩
+    · cases h
+
+theorem evalConds_fields (d : EvData) (cs : List Cond) : ∀ (s s' : St) (b : Bool),
+    evalConds s d cs = some (s', b) → s'.next = s.next ∧ s'.state = s.state := by
+  induction cs with
+  | nil => intro s s' b h; simp only [evalConds] at h; cases h; exact ⟨rfl, rfl⟩
+  | cons cd cs ih =>
+    intro s s' b h
+    simp only [evalConds] at h
+    split at h
+    · cases h
+    · next s1 b1 h1 =>
+      split at h
+      · cases h
+      · next s2 b2 h2 =>
+        cases h
+        have a := evalCond_fields s d cd s1 b1 h1
+        have b := ih s1 _ b2 h2
+        exact ⟨b.1.trans a.1, b.2.trans a.2⟩
+
+theorem resolve_next (c : Cfg) (s : St) (e : TEvent) (d : EvData) :
+    (resolve c s e d).1.next = s.next := by
+  unfold resolve
+  split
+  · split <;> rfl
+  · split
+    · rfl
+    · split
+      · rfl
+      · split
+        · rfl
+        · split
+          · rfl
+          · split
+            · rfl
+            · next s' ok h => split <;> exact (evalConds_fields _ _ _ _ _ h).1
+
+theorem stopTimer_fields (s : St) : (stopTimer s).failed = s.failed ∧ (stopTimer s).next = s.next ∧
+    (stopTimer s).out = s.out ∧ (stopTimer s).state = s.state := by
+  unfold stopTimer
+  split
+  · exact ⟨rfl, rfl, rfl, rfl⟩
+  · dsimp only; split <;> exact ⟨rfl, rfl, rfl, rfl⟩
+
+theorem leave_fields (s : St) : (leave s).failed = s.failed ∧ (leave s).next = s.next := by
+  unfold leave
+  split
+  · exact ⟨rfl, rfl⟩
+  · split
+    · exact ⟨(stopTimer_fields _).1, (stopTimer_fields _).2.1⟩
+    · exact ⟨rfl, rfl⟩
+
+theorem fail_fields (s : St) (k : ErrKind) : (s.fail k).next = s.next ∧ (s.fail k).state = s.state := by
+  unfold St.fail; split <;> exact ⟨rfl, rfl⟩
+
+theorem finish_next (c : Cfg) (s : St) : (finish c s).next = s.next := by
+  unfold finish
+  split
+  · exact (fail_fields _ _).1
+  · unfold sendOnEnter setOut
+    split <;> split <;> rfl
+
+theorem enterState_state (c : Cfg) (s : St) (d : EvData) (q : String) :
+    (enterState c s d q).state = some q := by
+  unfold enterState
+  have f1 := frame_runEnter c (s.enter q) q
+  dsimp only
+  split
+  · exact f1.state
+  · split
+    · exact f1.state
+    · next tev dflt _ =>
+      rcases startTimer_spec c (runEnter c (s.enter q) q) q tev d.dur with f2 | ⟨_, n, _, heq⟩
+      · exact f2.state.trans f1.state
+      · rw [heq, (setTimer_fields _ n tev).2.2.2.1]; exact f1.state
+
+theorem enterLoop_quiet (c : Cfg) : ∀ (fuel : Nat) (s : St) (d : EvData) (q : String),
+    (enterLoop c fuel s d q).failed = none →
+    (enterLoop c fuel s d q).next = none ∧ (enterLoop c fuel s d q).state ≠ none := by
+  intro fuel
+  induction fuel with
+  | zero => intro s d q h; unfold enterLoop at h; exact absurd h (fail_failed _ _)
+  | succ n ih =>
+    intro s d q
+    unfold enterLoop
+    dsimp only
+    generalize popNext s d q = r
+    have hst := enterState_state c r.1 r.2.1 r.2.2
+    generalize enterState c r.1 r.2.1 r.2.2 = s2 at hst
+    split
+    · next hf => intro h; rw [h] at hf; simp at hf
+    · split
+      · exact ih _ _ _
+      · next hn =>
+        intro _
+        refine ⟨?_, ?_⟩
+        · rw [finish_next]; cases h : s2.next with
+          | none => rfl
+          | some x => rw [h] at hn; simp at hn
+        · rw [(frame_finish c s2).state, hst]; simp
+
+theorem quiet_ctxEvent {c : Cfg} {s : St} (hq : Quiet s) (hf : s.failed = none) (e : TEvent) (d : EvData) :
+    Quiet (ctxEvent c s e d).1 := by
+  have hs := hq hf
+  unfold ctxEvent
+  have fr := (frame_setCtx s d).trans (frame_resolve c (setCtx s d) e d)
+  have kp := resolve_keeps c (setCtx s d) e d
+  have kn := resolve_next c (setCtx s d) e d
+  have base : Quiet (resolve c (setCtx s d) e d).1 := by
+    intro _
+    refine ⟨kn.trans hs.1, ?_⟩
+    rw [kp.1, fr.state]; exact hs.2
+  split
+  · next s1 heq => rw [heq] at base; exact base
+  · next s1 k heq => intro h; exact absurd h (fail_failed _ _)
+  · next s1 heq => rw [heq] at base; exact base
+  · next s1 q heq =>
+    dsimp only
+    split
+    · next k hk => intro h; rw [hk] at h; cases h
+    · next hnf =>
+      intro _
+      have := enterLoop_quiet c c.tbl.chainLimit (leave s1) d q hnf
+      exact ⟨this.1, fun _ => this.2⟩
+
+theorem quiet_deliver {c : Cfg} {s : St} (hq : Quiet s) (hf : s.failed = none) (e : TEvent) (d : EvData) :
+    Quiet (deliver c s e d).1 := by
+  rcases deliver_eq c s e d with ⟨heq, _⟩ | ⟨_, _, heq⟩
+  · rw [heq]; exact quiet_ctxEvent hq hf e d
+  · rw [heq]; intro h; exact absurd h (fail_failed _ _)
+
+theorem quiet_advanceAux (c : Cfg) (t : Nat) (strict : Bool) : ∀ (fuel : Nat) (s : St),
+    Quiet s → Quiet (advanceAux c fuel s t strict) := by
+  intro fuel
+  induction fuel with
+  | zero => intro s _; unfold advanceAux; intro h; exact absurd h (fail_failed _ _)
+  | succ n ih =>
+    intro s hq
+    unfold advanceAux
+    split
+    · exact hq
+    · next hf =>
+      split
+      · exact hq
+      · next h _ =>
+        apply ih
+        unfold fire
+        exact quiet_deliver (s := popTimer s h) hq (isSome_false_none hf) _ _
+
+theorem quiet_step {c : Cfg} {s : St} (hq : Quiet s) (op : Op) : Quiet (step c s op).1 := by
+  cases op with
+  | stop =>
+    show Quiet { stopTimer s with stopped := true }
+    have f := stopTimer_fields s
+    intro h
+    have h' : s.failed = none := f.1 ▸ h
+    have := hq h'
+    refine ⟨f.2.1.trans this.1, ?_⟩
+    show (stopTimer s).out.isUndef = false → (stopTimer s).state ≠ none
+    rw [f.2.2.1, f.2.2.2]; exact this.2
+  | advance t =>
+    simp only [step]
+    split
+    · exact hq
+    · exact quiet_advanceAux c t false _ s hq
+  | gate b => exact hq
+  | init =>
+    simp only [step]
+    split
+    · exact hq
+    · next hf =>
+      unfold initOp
+      exact quiet_deliver (s := { s with input := c.initInput }) hq (isSome_false_none hf) _ _
+  | ev t pl e d =>
+    simp only [step]
+    split
+    · exact hq
+    · have q1 := quiet_advanceAux c t (pl == .before) ((t - s.now) + s.timers.length + 2) s hq
+      split
+      · exact q1
+      · next hf => exact quiet_deliver q1 (isSome_false_none hf) _ _
+
+theorem quiet_run (c : Cfg) : ∀ (ops : List Op) (s : St), Quiet s → Quiet (run c s ops) := by
+  intro ops
+  induction ops with
+  | nil => intro s h; exact h
+  | cons op ops ih => intro s h; exact ih _ (quiet_step h op)
 
 end Edzed.FsmTimer
